@@ -152,7 +152,7 @@ package bbolt
 //@ func (*Tx).close
 //@   props C03 C08 C10
 //@   requires tx.db != nil && tx.writable ==> tx.db.rwlock.held
-//@   requires tx.db != nil && !tx.writable ==> tx.db.mmaplock.rcount >= 1
+//@   requires tx.db != nil && !tx.writable ==> tx.db.mmaplock.rcount >= 1 && tx.meta != nil && !tx.db.metalock.held
 //@   ensures [closed] tx.db == nil
 //@   ensures [unlocked] old(tx.db) != nil && old(tx.writable) ==> !old(tx.db).rwlock.held && old(tx.db).rwtx == nil
 //@   ensures [once] old(tx.db) != nil && old(tx.writable) ==> calls("sync.(*Mutex).Unlock", old(tx.db).rwlock) == old(calls("sync.(*Mutex).Unlock", tx.db.rwlock)) + 1
@@ -161,7 +161,7 @@ package bbolt
 
 //@ func (*DB).removeTx
 //@   props C02 C10 C03
-//@   requires db.mmaplock.rcount >= 1 && tx.meta != nil
+//@   requires db.mmaplock.rcount >= 1 && tx.meta != nil && !db.metalock.held
 //@   ensures [runlock] db.mmaplock.rcount == old(db.mmaplock.rcount) - 1
 //@   ensures [metalock] db.metalock.held == old(db.metalock.held)
 //@   ensures [unregister] db.freelist != nil ==> calls("freelist.Interface.RemoveReadonlyTXID", db.freelist) == old(calls("freelist.Interface.RemoveReadonlyTXID", db.freelist)) + 1
